@@ -22,14 +22,14 @@ func nodeIDPool(rng *rand.Rand) []string {
 	long := strings.Repeat("L", 151) + fmt.Sprintf("-%048x", rng.Uint64())
 	pool := []string{
 		string(rune('a' + rng.Intn(26))), // 1 byte
-		long[:200],                        // 200 bytes
-		"nœud-日本-üß", // UTF-8, multi-byte
-		"n:1;a/b?c=d&e,f+g|h",             // ':' and punctuation
+		long[:200],                       // 200 bytes
+		"nœud-日本-üß",                     // UTF-8, multi-byte
+		"n:1;a/b?c=d&e,f+g|h",            // ':' and punctuation
 		"Node-K",
 		"node-k", // differs only in case
 		"NODE-K",
 		"x.y:z",
-		"é",     // 2-byte single rune
+		"é",          // 2-byte single rune
 		"LocalHost1", // contains, but is not, the reserved alias
 		" sp ace ",
 		"7",
